@@ -19,6 +19,8 @@ type ForceCase struct {
 	ProjDir string `json:"proj_dir,omitempty"`
 	// Invoke: how spok is pointed at the project (sandbox.Box.Invoke)
 	Invoke  string   `json:"invoke,omitempty"`
+	// Outputs: "files" = standard output and error are regular files (sandbox.Box.FileOutputs)
+	Outputs string `json:"outputs,omitempty"`
 	NTasks  int      `json:"ntasks"`
 	Deps    [][2]int `json:"deps"`     // i depends on j (j > i)
 	FileDep []bool   `json:"file_dep"` // per task
@@ -38,6 +40,7 @@ func genForce(t *rapid.T) ForceCase {
 	c := genForceBody(t)
 	c.ProjDir = genProjDir(t)
 	c.Invoke = genInvoke(t)
+	c.Outputs = genOutputs(t)
 	return c
 }
 
@@ -108,6 +111,7 @@ func execForce(s *ev.Shard, b *sandbox.Box, c ForceCase) *rp.Fail {
 	if err := b.ResetFor(c.ProjDir, c.Invoke); err != nil {
 		return &rp.Fail{Sig: "harness", Msg: err.Error()}
 	}
+	b.FileOutputs = c.Outputs == "files"
 	src := c.source()
 	if err := writeProject(b, b.Proj, map[string]string{"spokfile": src, "in.txt": "input"}); err != nil {
 		return &rp.Fail{Sig: "harness", Msg: err.Error()}
